@@ -45,6 +45,63 @@ def _dedups(mod, e):
   return None
 
 
+def watermark_regressions(f, g, rd, loops):
+  """Loop-carried "covered so far" markers that are not updated monotonically.
+
+  A variable V is a high-water mark of loop L when it is assigned inside L from the loop element and read inside L before that
+  assignment in a comparison or as the base of the next start (`x <= V`, `V + step`).  Its update must be `max(V, ...)` or be
+  guarded by a comparison with V; a plain `V = elem.attr` moves it backwards for nested elements."""
+  out = []
+  doms = g.dominators(cfgmod.no_exc)
+  for loop in loops:
+    elem = {x.id for x in ast.walk(loop.ast.target) if isinstance(x, ast.Name)}
+    body = [n for n in g.nodes if n.ast is not None and n is not loop and any(x is n.ast for x in ast.walk(loop.ast))]
+    for n in body:
+      if not (n.kind == 'stmt' and isinstance(n.ast, ast.Assign) and len(n.ast.targets) == 1 and isinstance(n.ast.targets[0], ast.Name)):
+        continue
+      v = n.ast.targets[0].id
+      val = n.ast.value
+      from_elem = any(isinstance(x, ast.Name) and x.id in elem for x in ast.walk(val))
+      if not from_elem or v in elem:
+        continue
+      # read of v inside the loop that can see the value of a previous iteration (the definition at n reaches it around the back edge)
+      carried = False
+      compared = False
+      for m in body:
+        for e in ([m.expr] if m.kind == 'test' else ([m.ast] if m.kind in ('stmt',) else [])):
+          for x in ast.walk(e):
+            if isinstance(x, ast.Name) and x.id == v and isinstance(x.ctx, ast.Load) and m is not n:
+              if any(d.node is n for d in rd.defs_at(m, v)) and n not in doms.get(m, ()):
+                carried = True
+                par = getattr(x, '_parent', None)
+                if isinstance(par, (ast.Compare, ast.BinOp)) or m.kind == 'test':
+                  compared = True
+      if not (carried and compared):
+        continue
+      def mono(e):
+        if isinstance(e, ast.Call) and norm(e.func) in ('max', 'np.maximum', 'numpy.maximum') and any(norm(a) == v for a in e.args):
+          return True
+        if isinstance(e, ast.IfExp):
+          t = norm(e.test)
+          if t == '%s is None' % v:
+            return mono(e.orelse)
+          if t == '%s is not None' % v:
+            return mono(e.body)
+          if isinstance(e.test, ast.Compare) and v in {x.id for x in ast.walk(e.test) if isinstance(x, ast.Name)}:
+            return norm(e.body) == v or norm(e.orelse) == v     # `x if x > v else v`
+        return False
+      monotone = mono(val)
+      if not monotone:
+        # guarded update: `if elem.attr > v: v = elem.attr`
+        par = getattr(n.ast, '_parent', None)
+        if isinstance(par, ast.If) and v in {x.id for x in ast.walk(par.test) if isinstance(x, ast.Name)} and isinstance(par.test, ast.Compare) \
+            and any(n.ast is st_ for st_ in par.body) and 'is None' not in norm(par.test):
+          monotone = True
+      if not monotone:
+        out.append((loop, v, n))
+  return out
+
+
 def _loop_rule(rep, f, g, loop, param, acc_pred, rule, what):
   """`for x in <param>`: iterates the parameter itself; every iteration reaches an accumulate node or raises."""
   it = norm(loop.ast.iter)
@@ -89,6 +146,11 @@ def r_expand(repo, rep):
                     'expand_time_windows returns the accumulated list `%s` without de-duplicating it: days covered by overlapping or repeated windows appear more than once'
                     % norm(rv), f.loc(rets[0].ast))
     else:
+      wm = watermark_regressions(f, g, rd, loops)
+      for (loopn, var, node) in wm:
+        rep.violation('R1/dedup', f.qualname, norm(node.ast),
+                      'expand_time_windows does not de-duplicate its result and relies on the running marker `%s` to skip days already covered, but `%s` can move the marker backwards '
+                      '(a window nested in an earlier, longer one): days covered by a later overlapping window are then listed twice' % (var, norm(node.ast)), f.loc(node.ast))
       rep.undecided('R1/dedup', f.name, 'return value %s is not a recognised de-duplicating construct; the algorithm is not decided statically' % norm(rv)[:80], f.loc(rv))
     return
   rep.ok('R1/dedup', 'returned list is de-duplicated: %s' % norm(rv), loc=f.loc(rv))
